@@ -232,6 +232,74 @@ def cyc_ckpt_task(args):
         s.cleanup()
 
 
+def acyc_ckpt_task(args):
+    """C03 with a repository history: an acyclic configuration in a git repository with a checkpoint;
+    for every non-empty subset of targets touched since (optionally with the records of an earlier
+    failed run on disk) `analyze --target-groups` and `run` must group exactly the targets they
+    report as changed, every target after everything it depends on."""
+    n, edges, prior = args
+    ts = flat_targets(n, edges, False)
+    tm = {t["path"]: t for t in ts}
+    s = sc.Scratch("gak")
+    try:
+        r = sc.Repo(s, "r", ts, commands={t["path"]: {"build": "x"} for t in ts})
+        v = []
+        judged = 0
+        if r.mr("checkpoint", "update").code != 0:
+            raise common.EngineError("checkpoint update failed")
+        if prior:
+            r.set_script(ts[0]["path"], "build", ["exit 1"])
+            r.mr("run", "-c", "build", "-t", ts[0]["path"], env=r.trace_env())
+            r.set_script(ts[0]["path"], "build", ["exit 0"])
+        names = [t["path"] for t in ts]
+        for bits in range(1, 1 << n):
+            touched = [names[i] for i in range(n) if bits >> i & 1]
+            for t_ in names:
+                p_ = r.path(t_ + "/touch.txt")
+                if t_ in touched:
+                    r.write(t_ + "/touch.txt", "x\n")
+                elif os.path.exists(p_):
+                    os.unlink(p_)
+            res = r.mr("analyze", "--target-groups")
+            d = res.json()
+            judged += 1
+            if res.code != 0 or d is None:
+                v.append(("acyclic-rejected-by-cli", "analyze --target-groups with a checkpoint and %s touched: exit %s %s" % (touched, res.code, res.err[:200])))
+                continue
+            want = set(d.get("targets") or [])
+            if not set(touched) <= want:
+                v.append(("touched-target-not-reported", "touched %s, analyze reports %s" % (touched, sorted(want))))
+            bad = layering_defect(tm, want, d.get("target_groups") or [])
+            if bad:
+                v.append(("bad-layering-cli", "checkpoint, %s touched: %s (groups %s)" % (touched, bad, d.get("target_groups"))))
+            r.clear_traces()
+            rr = r.mr("run", "-c", "build", env=r.trace_env())
+            rd = rr.json()
+            judged += 1
+            if rr.code != 0 or rd is None:
+                v.append(("acyclic-rejected-by-run", "run with a checkpoint and %s touched: exit %s %s" % (touched, rr.code, rr.err[:200])))
+            else:
+                groups = [list(g) for g in rd["results"][0]["target_groups"]]
+                bad = layering_defect(tm, want, groups)
+                if bad:
+                    v.append(("bad-layering-run", "checkpoint, %s touched: %s (groups %s)" % (touched, bad, groups)))
+        return {"judged": judged, "v": [(sig, d, {"cli_acyc_ckpt": [n, edges, prior]}) for sig, d in v]}
+    finally:
+        s.cleanup()
+
+
+def acyc_ckpt_cases(tier):
+    out = []
+    for n in (2, 3):
+        for edges in digraphs(n):
+            ts = flat_targets(n, edges, False)
+            if edges and not has_cycle({t["path"]: t for t in ts}):
+                out.append((n, edges, False))
+                if tier != "quick" or len(edges) == 2:
+                    out.append((n, edges, True))
+    return out
+
+
 def cyc_ckpt_cases(tier):
     out = []
     for n in (2, 3):
@@ -350,6 +418,8 @@ def _wrap(fn_name, arg):
             return graph_task(arg)
         if fn_name == "cyc":
             return cyc_ckpt_task(arg)
+        if fn_name == "acyc":
+            return acyc_ckpt_task(arg)
         if fn_name == "c01":
             return c01_task(arg)
     except common.EngineError as e:
@@ -370,6 +440,10 @@ def _wcy(a):
     return _wrap("cyc", a)
 
 
+def _wac(a):
+    return _wrap("acyc", a)
+
+
 def _w01(a):
     return _wrap("c01", a)
 
@@ -382,6 +456,8 @@ def run_slice(prop, tier):
         res = common.pmap(_wg, graph_cases(prop, tier), chunksize=2)
         if prop == "C09":
             res += common.pmap(_wcy, cyc_ckpt_cases(tier), chunksize=1)
+        else:
+            res += common.pmap(_wac, acyc_ckpt_cases(tier), chunksize=1)
     elif prop == "C01":
         res = common.pmap(_w01, c01_cases(tier), chunksize=2)
     else:
